@@ -2,6 +2,7 @@ package main
 
 import (
 	"encoding/json"
+	"fmt"
 	"os"
 	"sort"
 )
@@ -50,8 +51,20 @@ func runOracle(prop string, seed uint64, n int, tier, out, extra string) {
 	res := oracleResult{Property: prop, Rule: o.rule, Dist: map[string]int{}, Failures: []failure{}, Samples: []string{}}
 	seen := map[string]bool{}
 	failSeen := map[string]bool{}
+	// ORACLE_STOP_AFTER=k: stop once k failures outside every known-finding class were
+	// found (used when a broken tie makes the check search for one failing input)
+	stopAfter, unclassified := 0, 0
+	if v := os.Getenv("ORACLE_STOP_AFTER"); v != "" {
+		fmt.Sscan(v, &stopAfter)
+	}
 	for _, in := range inputs {
+		if stopAfter > 0 && unclassified >= stopAfter {
+			break
+		}
 		detail, sig, class := safeCheck(o, in, res.Dist)
+		if detail != "" && class == "" {
+			unclassified++
+		}
 		res.Evaluations++
 		if sig != "" && !seen[in+"\x00"+sig] {
 			seen[in+"\x00"+sig] = true
